@@ -341,4 +341,13 @@ def lean_obligations(rep, prop_module, extra_targets=()):
         all_ok = all_ok and good
     hits = forbidden_tokens()
     rep.oblige("no sorry/admit/axiom/native_decide/bv_decide/implemented_by/unsafe/maxHeartbeats 0", not hits, "; ".join(hits))
+    if getattr(rep, "tier", "quick") == "thorough":
+        # independent re-check of the compiled Props module by the toolchain's second kernel front end
+        try:
+            rc, out, err = sh(["lake", "env", "leanchecker", prop_module], cwd=LEAN, timeout=1800)
+            rep.oblige(f"leanchecker {prop_module}", rc == 0, (out + err)[-600:])
+            all_ok = all_ok and rc == 0
+        except Exception as e:
+            rep.oblige(f"leanchecker {prop_module}", False, str(e)[:300])
+            all_ok = False
     return all_ok and not hits
